@@ -7,7 +7,7 @@ CONSTANTS
   MaxCalls = 3
   MaxProcs = 2
   Export = FALSE
-  SigmaSeeded = FALSE
+  SigmaSeeded = TRUE
   SplitSeeded = TRUE
   BootSeeded = TRUE
   FreshModelPerCall = TRUE
@@ -16,6 +16,6 @@ CONSTANTS
   SummaryStateless = TRUE
   WeightsRebuilt = TRUE
   FeedCopied = TRUE
-  OutlierColumnsOwn = TRUE
+  OutlierColumnsOwn = FALSE
 INVARIANT Functional
 CHECK_DEADLOCK FALSE
